@@ -113,6 +113,50 @@ example : isBlank (encode (List.replicate 4 ' ')) = true := by
   rw [this]
   simp [encode, replaceAll, isBlank, isWs]
 
+/-- **From the string given to `add_string`.**  For a text without triple quotes, `DIP.add_string` + `_get_queue`
+    + `parse` (split at newlines, strip the blank lines at both ends, queue every line) is `parse` on the list of
+    its lines: `parseText` (what the driver runs against the real code) and `parseLines` (what the theorems above
+    talk about) agree on `lines` joined by newlines, for every non-empty list of newline-free lines — blank
+    lines at the ends included (they are stripped, and by `C13_blank_comment_invariance` do not matter). -/
+theorem C13_text_is_lines (P : Params) (lines : List Str) (hne : lines ≠ [])
+    (hnl : ∀ l ∈ lines, ∀ c ∈ l, c ≠ '\n') (hq : ∀ l ∈ lines, hasTriple l = false) :
+    parseText P (joinWith ['\n'] lines) = parseLines P lines := by
+  unfold parseText
+  rw [splitOn_join '\n' lines hne hnl]
+  obtain ⟨pre, post, hdec, hpre, hpost⟩ := strip_decomp lines
+  generalize hS : stripBlankLines lines = S at *
+  subst hdec
+  have hSq : ∀ l ∈ S, hasTriple l = false := fun l hl => hq l (by simp [hl])
+  rw [getQueue_noTriple S hSq]
+  have hdropPre : ∀ (pre X : List Str), (∀ l ∈ pre, isBlank l = true ∧ ∀ c ∈ l, c ≠ '\n') →
+      parseLines P (pre ++ X) = parseLines P X := by
+    intro pre
+    induction pre with
+    | nil => intro X _; rfl
+    | cons l t ih =>
+      intro X h
+      have hl := h l (by simp)
+      have := C13_blank_comment_invariance P [] (t ++ X) l (.inl (isBlank_encode l hl.1 hl.2))
+      simp only [List.nil_append] at this
+      rw [List.cons_append, this]
+      exact ih X (fun x hx => h x (List.mem_cons_of_mem _ hx))
+  have hdropPost : ∀ (post X : List Str), (∀ l ∈ post, isBlank l = true ∧ ∀ c ∈ l, c ≠ '\n') →
+      parseLines P (X ++ post) = parseLines P X := by
+    intro post
+    induction post with
+    | nil => intro X _; simp
+    | cons l t ih =>
+      intro X h
+      have hl := h l (by simp)
+      rw [C13_blank_comment_invariance P X t l (.inl (isBlank_encode l hl.1 hl.2))]
+      exact ih X (fun x hx => h x (List.mem_cons_of_mem _ hx))
+  rw [hdropPost post (pre ++ S) (fun l hl => ⟨hpost l hl, hnl l (by simp [hl])⟩),
+    hdropPre pre S (fun l hl => ⟨hpre l hl, hnl l (by simp [hl])⟩)]
+  rfl
+
+example : joinWith ['\n'] ["".toList, "a int = 1".toList, "  b int = 2".toList, " ".toList] =
+    "\na int = 1\n  b int = 2\n ".toList := by decide
+
 /-- One parameter per distinct path, in order of first appearance: whenever `parse` succeeds the
     paths of the returned nodes are pairwise different, every node has a value object, and the
     nodes created while reading a prefix `a` of the program come first, in the same order
